@@ -19,6 +19,10 @@ for f in sorted(os.listdir(os.path.join(os.path.dirname(vocab.__file__), 'rules'
         mod.check(run)
     bad = [o for o in run.obs if o.status != 'discharged']
     out[pid] = vocab.baseline(run)
+    counts = {}
+    for o in run.obs:
+        if o.key != 'rule-aborted': counts.setdefault(o.rule, set()).add(o.key)
+    out.setdefault('_counts', {})[pid] = dict((r, len(k)) for r, k in sorted(counts.items()))
     print(pid, 'rules', len(out[pid]), 'functions', sum(len(v) for v in out[pid].values()),
           'names', sum(len(n) for v in out[pid].values() for n in v.values()), '(non-discharged obligations: %d)' % len(bad))
 import ast, warnings
